@@ -47,10 +47,10 @@ DecsX == << Dc(10, 0), VDec(Z(1, MSub(DecMaxM, <<1>>)), 0), Dc(725, 2), Dc(-5, 1
             VDec(Z(1, DecMaxM), 28), Dc(250000001, 8), Dc(2, 0), Dc(-35, 1), Dc(45, 1) >>
 
 StrsQ == << St(""), St("a"), St("A"), St("abc"), St(" a "), St("1"), St("i1"), St("1.5"), St("true"),
-            St("NaN"), St("-7"), St("2015-07-30T03:26:13Z"), St("2015-02-30T00:00:00Z"),
+            St("NaN"), St("-7"), St("2015-07-30T03:26:13Z"), St("2015-02-30T00:00:00Z"), St("2015-07-30T03:26:13"),
             VStr(<<233, 223, 65>>), VStr(<<12288, 120, 160, 9>>) >>
 StrsX == << St("1e5"), St("+5"), St("b"), St("ab"), St("bc"), St("1970-01-01T00:00:00Z"),
-            St("1969-12-31T23:59:59.999999999Z"), St("2015-07-30T03:26:13"), St("2015-07-30T03:26:13.5+02:00"), St("2015-07-30"),
+            St("1969-12-31T23:59:59.999999999Z"), St("2015-07-30T03:26:13.5+02:00"), St("2015-07-30"),
             St("170141183460469231731687303715884105727"), St("170141183460469231731687303715884105728"),
             St("-170141183460469231731687303715884105728"), St("inf"), St("-Infinity"), St(".5"), St("5."),
             St("1.5e3"), St("1e999"), St("-0"), St(" 1"), St("1 "), St("1_000"), St("0x10"), St("1.50"),
